@@ -822,7 +822,7 @@ def run(ctx):
         tr.finish([], True)
         ctx.unmodelled += 5
         # (c) random histories
-        nh = 24 if ctx.quick else 250
+        nh = 24 if ctx.quick else 600
         for i in range(nh):
             kw = {}
             if i % 6 == 5:
@@ -849,7 +849,7 @@ def run(ctx):
         imp = ["Lib.Base", "Lib.PyStr", "Lib.Urlenc", "Model.RegUri", "Model.Registration"]
         ctx.coq_check_cases(imp, "trace_case", "chk_trace", traces, shard=6, label="trace", diag="diag_trace")
         # (d) pure URI product
-        pure_uri_cases(ctx, rng, 500 if ctx.quick else 8000)
+        pure_uri_cases(ctx, rng, 500 if ctx.quick else 20000)
     finally:
         R.rndstr, R.secret = saved
         clock.uninstall()
